@@ -1,5 +1,4 @@
 from common import COMMON_ASSUME
-import os  # TEMP-DEV
 
 PROP = dict(
     harness=['c18_oom.c', 'vf_arr.c', 'vf_ref.c'],
@@ -37,7 +36,6 @@ PROP = dict(
     thorough=dict(configs=['oom'], cases=8000000, maxlen=300, fuzz_s=0,
                   setmax=1 << 23),
     case_timeout=60,
-    env=({'VF_KNOWN': os.environ['C18_DEV_KNOWN']} if 'C18_DEV_KNOWN' in os.environ else {}),  # TEMP-DEV
     required_classes=[
         'api.dict.create', 'api.dict.build', 'api.dict.encode',
         'api.dict.encodedsize', 'api.dict.decode', 'api.dict.decodeinto',
